@@ -44,7 +44,7 @@ def sibling_doc(rnd):
         kids.append(('e', nm, a, [('e', 'b', {}, [])] if rnd.random() < 0.2 else []))
     if style != 'tight' and rnd.random() < 0.5:
         kids.append(('t', '\n'))
-    mode = rnd.choice(['api', 'html.parser', 'lxml', 'html5lib', 'frag', 'toplevel', 'xml', 'xmlns'])
+    mode = rnd.choice(['api', 'html.parser', 'lxml', 'html5lib', 'frag', 'toplevel', 'xml', 'xmlns', 'xmlns'])
     if mode == 'xmlns':
         # same-named siblings in different namespaces are different element types
         kids = [(k[0], k[1], dict(k[2], xmlns=rnd.choice(['urn:one', 'urn:two', 'urn:one'])) if rnd.random() < 0.7 else k[2], k[3])
@@ -112,7 +112,7 @@ def run(tier, seed):
             ops = [('select', (), 0)] + [('match', sc.path_of[id(e)]) for e in sc.elements[:12]]
             # a caller-supplied default namespace must not change which siblings are COUNTED (only what a type selector means)
             nsm = None
-            if ('/xml/' in label or '/html5lib/' in label) and rnd.random() < 0.4:
+            if ('/xml/' in label or '/html5lib/' in label) and rnd.random() < 0.55:
                 nsm = rnd.choice([{'': 'urn:one'}, {'': 'urn:two', 'o': 'urn:one'}, {'': 'http://www.w3.org/1999/xhtml'}, {'': 'urn:none'}])
             sc.add(pat, ops, namespaces=nsm)
             sc.meta[pat] = [[cp]]
